@@ -90,8 +90,8 @@ class Tr:
             op = {ast.Add: '+', ast.Sub: '-', ast.Mult: '*', ast.FloorDiv: '/', ast.Mod: '%'}.get(type(n.op))
             if op == '+' and (s.isbytes(n.left) or s.isbytes(n.right)): return f'({a} ++ {b})'
             if op: return f'({a} {op} {b})'
-            if isinstance(n.op, ast.LShift): return f'(Py.shl {a} {b})'
-            if isinstance(n.op, ast.RShift): return f'(Py.shr {a} {b})'
+            if isinstance(n.op, ast.LShift): return s.eff(f'Py.shl {a} {b}')
+            if isinstance(n.op, ast.RShift): return s.eff(f'Py.shr {a} {b}')
             if isinstance(n.op, ast.BitAnd): return f'(Py.land {a} {b})'
             if isinstance(n.op, ast.BitOr): return f'(Py.lor {a} {b})'
             s.fail(n, 'binop')
